@@ -130,16 +130,23 @@ func runHistoryCase(c *Ctx, kind string, opts int, inputs [][]rune, abortAt int)
 func runHasNextCase(c *Ctx, kind string, opts int, pattern string, input []rune) {
 	op := fmt.Sprintf("tokh %s %d %s %s", kind, opts, pattern, runesStr(input))
 	var got []tk
+	incons := ""
 	st := safeCallT(3*time.Second, func() string {
 		t := newTokenizer(kind)
 		setOpts(t, opts)
 		t.SetReader(newScanner(string(input)))
 		for i := 0; i < len(input)+4; i++ {
 			k := int(pattern[i%len(pattern)] - '0')
+			answers := make([]bool, k)
 			for j := 0; j < k; j++ {
-				t.HasNextToken()
+				answers[j] = t.HasNextToken()
 			}
 			tok := t.NextToken()
+			for j, a := range answers {
+				if a != (tok != nil) && incons == "" {
+					incons = fmt.Sprintf("before fetch #%d, HasNextToken query #%d answered %v but NextToken returned %s", i, j+1, a, map[bool]string{true: "a token", false: "nil"}[tok != nil])
+				}
+			}
 			if tok == nil {
 				break
 			}
@@ -156,6 +163,10 @@ func runHasNextCase(c *Ctx, kind string, opts int, pattern string, input []rune)
 	}
 	if !eqTks(got, plain) {
 		c.fail(Failure{Kind: "oracle", Op: op, Impl: showTks(got), Spec: showTks(plain), Note: "token sequence depends on how often HasNextToken was called"})
+		return
+	}
+	if incons != "" {
+		c.fail(Failure{Kind: "oracle", Op: op, Impl: showTks(got), Note: "the presence query must not depend on how often it is asked: " + incons})
 		return
 	}
 	c.model(op, showTks(got), "model")
